@@ -2,4 +2,1447 @@ import GoRes.Model.Pool
 /-! Helper lemmas and invariants for the worker-pool model (C01, C02, C03, C16). -/
 namespace GoRes.Pool
 
+/-! ## normal forms of the transitions -/
+
+/-- worker `i` (holding the lock, owning no item) looks at the queue -/
+def relook (s : St) (i : Nat) : St :=
+  setWorker s i (loopTop s.wq s.rwork).1 (loopTop s.wq s.rwork).2.1 (loopTop s.wq s.rwork).2.2
+
+/-- virtual half-step of `wDone` with nothing pending: the item is retired, the worker is at the loop top -/
+def finish (s : St) (i : Nat) (w : Work) (cb : Nat) : St :=
+  { s with finished := s.finished ++ [cb], workers := s.workers.set i .idle, rwork := retire w.wid s.rwork }
+
+/-- `wDone` with a pending callback -/
+def next (s : St) (i : Nat) (w : Work) (cb f : Nat) (fs : List Nat) : St :=
+  setWorker { s with finished := s.finished ++ [cb] } i (.running { w with pending := fs } f) s.wq s.rwork
+
+theorem step_wStart (s : St) (i : Nat) :
+    step s (.wStart i) = if s.workers[i]? = some .idle then some (relook s i) else none := by
+  simp only [step]
+  split
+  · next h => simp [h, relook]
+  · next h => split
+              · next h2 => exact absurd h2 h
+              · rfl
+
+theorem step_wWake (s : St) (i : Nat) :
+    step s (.wWake i) = if s.workers[i]? = some (.waiting true) then some (relook s i) else none := by
+  simp only [step]
+  split
+  · next h => simp [h, relook]
+  · next h => split
+              · next h2 => exact absurd h2 h
+              · rfl
+
+theorem step_wSpurious (s : St) (i : Nat) :
+    step s (.wSpurious i) = if s.workers[i]? = some (.waiting false) then some (relook s i) else none := by
+  simp only [step]
+  split
+  · next h => simp [h, relook]
+  · next h => split
+              · next h2 => exact absurd h2 h
+              · rfl
+
+theorem relook_finish (s : St) (i : Nat) (w : Work) (cb : Nat) :
+    relook (finish s i w cb) i =
+      setWorker { s with finished := s.finished ++ [cb] } i (loopTop s.wq (retire w.wid s.rwork)).1
+        (loopTop s.wq (retire w.wid s.rwork)).2.1 (loopTop s.wq (retire w.wid s.rwork)).2.2 := by
+  simp [relook, finish, setWorker]
+
+theorem step_wDone_elim {s s' : St} {i : Nat} (h : step s (.wDone i) = some s') :
+    ∃ w cb, s.workers[i]? = some (.running w cb) ∧
+      ((∃ f fs, w.pending = f :: fs ∧ s' = next s i w cb f fs) ∨
+       (w.pending = [] ∧ s' = relook (finish s i w cb) i)) := by
+  simp only [step] at h
+  split at h
+  · next w cb hw =>
+    refine ⟨w, cb, hw, ?_⟩
+    split at h
+    · next f fs hp => left; exact ⟨f, fs, hp, by simpa [next] using h.symm⟩
+    · next hp => right; refine ⟨hp, ?_⟩; rw [relook_finish]; simpa using h.symm
+  · cases h
+
+def subAppend (s : St) (q : List Work) (wid cb : Nat) (rest : List Sub) : St :=
+  { s with wq := some (q.map (appendWork wid cb)), workers := s.workers.map (appendWS wid cb),
+           inflight := rest, accepted := s.accepted ++ [(wid, cb)] }
+
+def subNew (s : St) (q : List Work) (wid cb : Nat) (infl : List Sub) : St :=
+  { s with wq := some (q ++ [⟨wid, [cb]⟩]), rwork := if wid = 0 then s.rwork else wid :: s.rwork,
+           inflight := infl, accepted := s.accepted ++ [(wid, cb)] }
+
+theorem step_subLock_elim {s s' : St} {tid : Nat} (h : step s (.subLock tid) = some s') :
+    ∃ t wid cb, s.inflight.find? (·.tid = tid) = some ⟨t, wid, cb, false⟩ ∧
+      ((s.wq = none ∧ s' = { s with inflight := s.inflight.filter (·.tid ≠ tid) }) ∨
+       (∃ q, s.wq = some q ∧ wid ≠ 0 ∧ wid ∈ s.rwork ∧
+          s' = subAppend s q wid cb (s.inflight.filter (·.tid ≠ tid))) ∨
+       (∃ q, s.wq = some q ∧ ¬ (wid ≠ 0 ∧ wid ∈ s.rwork) ∧
+          s' = subNew s q wid cb (s.inflight.filter (·.tid ≠ tid) ++ [⟨tid, wid, cb, true⟩]))) := by
+  simp only [step] at h
+  split at h
+  · next t wid cb hf =>
+    refine ⟨t, wid, cb, hf, ?_⟩
+    split at h
+    · next hq => left; exact ⟨hq, by simpa using h.symm⟩
+    · next q hq =>
+      right
+      split at h
+      · next hc => left; exact ⟨q, hq, hc.1, hc.2, by simpa [subAppend] using h.symm⟩
+      · next hc => right; exact ⟨q, hq, hc, by simpa [subNew] using h.symm⟩
+  · cases h
+
+theorem step_subSignal_elim {s s' : St} {tid : Nat} (h : step s (.subSignal tid) = some s') :
+    ∃ t wid cb, s.inflight.find? (·.tid = tid) = some ⟨t, wid, cb, true⟩ ∧
+      ((∃ i, s.waitOrder.find? (fun i => s.workers[i]? = some (.waiting false)) = some i ∧
+          s' = { s with inflight := s.inflight.filter (·.tid ≠ tid), workers := s.workers.set i (.waiting true) }) ∨
+       (s.waitOrder.find? (fun i => s.workers[i]? = some (.waiting false)) = none ∧
+          s' = { s with inflight := s.inflight.filter (·.tid ≠ tid) })) := by
+  simp only [step] at h
+  split at h
+  · next t wid cb hf =>
+    refine ⟨t, wid, cb, hf, ?_⟩
+    split at h
+    · next i hi => left; exact ⟨i, hi, by simpa using h.symm⟩
+    · next hi => right; exact ⟨hi, by simpa using h.symm⟩
+  · cases h
+
+theorem step_serve (s : St) (n : Nat) : step s (.serve n) =
+    if s.phase = .stopped ∧ s.workers.all (· = .exited) then
+      some { s with phase := .started, epoch := s.epoch + 1, wq := some [], rwork := [],
+                    workers := List.replicate n .idle, waitOrder := [] } else none := rfl
+
+theorem step_subCheck_elim {s s' : St} {tid wid cb : Nat} {pass : Bool}
+    (h : step s (.subCheck tid wid cb pass) = some s') :
+    s' = s ∨ (s.inflight.all (·.tid ≠ tid) ∧ s' = { s with inflight := s.inflight ++ [⟨tid, wid, cb, false⟩] }) := by
+  simp only [step] at h
+  split at h
+  · cases h
+  · next hn =>
+    split at h
+    · split at h
+      · right; refine ⟨?_, by simpa using h.symm⟩
+        simpa using hn
+      · cases h
+    · left; simpa using h.symm
+
+theorem step_shutdownCas (s : St) : step s .shutdownCas =
+    if s.phase = .started then some { s with phase := .stopping } else none := rfl
+theorem step_closeLock (s : St) : step s .closeLock =
+    if s.phase = .stopping ∧ s.wq.isSome then some { s with wq := none } else none := rfl
+theorem step_closeBroadcast (s : St) : step s .closeBroadcast =
+    if s.phase = .stopping ∧ s.wq.isNone then
+      some { s with workers := s.workers.map fun | .waiting _ => .waiting true | x => x } else none := rfl
+theorem step_shutdownDone (s : St) : step s .shutdownDone =
+    if s.phase = .stopping ∧ s.wq.isNone ∧ s.workers.all (· = .exited) then some { s with phase := .stopped } else none := rfl
+
+/-- the state after `serve n` -/
+def served (s : St) (n : Nat) : St :=
+  { s with phase := .started, epoch := s.epoch + 1, wq := some [], rwork := [],
+           workers := List.replicate n .idle, waitOrder := [] }
+
+/-- the state after `closeBroadcast` -/
+def broadcast (s : St) : St :=
+  { s with workers := s.workers.map fun | .waiting _ => .waiting true | x => x }
+
+/-- `step` as a relation, one constructor per branch of the code -/
+inductive Step : St → Act → St → Prop
+  | serve (s : St) (n : Nat) : s.phase = .stopped → s.workers.all (· = .exited) = true →
+      Step s (.serve n) (served s n)
+  | checkFail (s : St) (tid wid cb : Nat) (pass : Bool) : Step s (.subCheck tid wid cb pass) s
+  | checkPass (s : St) (tid wid cb : Nat) (pass : Bool) : s.inflight.all (·.tid ≠ tid) = true →
+      Step s (.subCheck tid wid cb pass) { s with inflight := s.inflight ++ [⟨tid, wid, cb, false⟩] }
+  | lockClosed (s : St) (tid t wid cb : Nat) : s.inflight.find? (·.tid = tid) = some ⟨t, wid, cb, false⟩ →
+      s.wq = none → Step s (.subLock tid) { s with inflight := s.inflight.filter (·.tid ≠ tid) }
+  | lockAppend (s : St) (tid t wid cb : Nat) (q : List Work) :
+      s.inflight.find? (·.tid = tid) = some ⟨t, wid, cb, false⟩ → s.wq = some q → wid ≠ 0 → wid ∈ s.rwork →
+      Step s (.subLock tid) (subAppend s q wid cb (s.inflight.filter (·.tid ≠ tid)))
+  | lockNew (s : St) (tid t wid cb : Nat) (q : List Work) :
+      s.inflight.find? (·.tid = tid) = some ⟨t, wid, cb, false⟩ → s.wq = some q → ¬ (wid ≠ 0 ∧ wid ∈ s.rwork) →
+      Step s (.subLock tid) (subNew s q wid cb (s.inflight.filter (·.tid ≠ tid) ++ [⟨tid, wid, cb, true⟩]))
+  | signalSome (s : St) (tid t wid cb i : Nat) : s.inflight.find? (·.tid = tid) = some ⟨t, wid, cb, true⟩ →
+      s.waitOrder.find? (fun i => s.workers[i]? = some (.waiting false)) = some i →
+      Step s (.subSignal tid)
+        { s with inflight := s.inflight.filter (·.tid ≠ tid), workers := s.workers.set i (.waiting true) }
+  | signalNone (s : St) (tid t wid cb : Nat) : s.inflight.find? (·.tid = tid) = some ⟨t, wid, cb, true⟩ →
+      s.waitOrder.find? (fun i => s.workers[i]? = some (.waiting false)) = none →
+      Step s (.subSignal tid) { s with inflight := s.inflight.filter (·.tid ≠ tid) }
+  | wStart (s : St) (i : Nat) : s.workers[i]? = some .idle → Step s (.wStart i) (relook s i)
+  | wWake (s : St) (i : Nat) : s.workers[i]? = some (.waiting true) → Step s (.wWake i) (relook s i)
+  | wSpurious (s : St) (i : Nat) : s.workers[i]? = some (.waiting false) → Step s (.wSpurious i) (relook s i)
+  | doneNext (s : St) (i : Nat) (w : Work) (cb f : Nat) (fs : List Nat) :
+      s.workers[i]? = some (.running w cb) → w.pending = f :: fs → Step s (.wDone i) (next s i w cb f fs)
+  | doneLast (s : St) (i : Nat) (w : Work) (cb : Nat) :
+      s.workers[i]? = some (.running w cb) → w.pending = [] → Step s (.wDone i) (relook (finish s i w cb) i)
+  | shutdownCas (s : St) : s.phase = .started → Step s .shutdownCas { s with phase := .stopping }
+  | closeLock (s : St) : s.phase = .stopping → s.wq.isSome = true → Step s .closeLock { s with wq := none }
+  | closeBroadcast (s : St) : s.phase = .stopping → s.wq = none → Step s .closeBroadcast (broadcast s)
+  | shutdownDone (s : St) : s.phase = .stopping → s.wq = none → s.workers.all (· = .exited) = true →
+      Step s .shutdownDone { s with phase := .stopped }
+
+theorem step_Step {s s' : St} {a : Act} (hs : step s a = some s') : Step s a s' := by
+  cases a with
+  | serve n =>
+    rw [step_serve] at hs; split at hs
+    · next h => cases hs; exact .serve s n h.1 h.2
+    · cases hs
+  | subCheck tid wid cb pass =>
+    rcases step_subCheck_elim hs with rfl | ⟨h, rfl⟩
+    · exact .checkFail ..
+    · exact .checkPass _ _ _ _ _ h
+  | subLock tid =>
+    obtain ⟨t, wid, cb, hf, h⟩ := step_subLock_elim hs
+    rcases h with ⟨hq, rfl⟩ | ⟨q, hq, h0, hm, rfl⟩ | ⟨q, hq, hc, rfl⟩
+    · exact .lockClosed _ _ _ _ _ hf hq
+    · exact .lockAppend _ _ _ _ _ _ hf hq h0 hm
+    · exact .lockNew _ _ _ _ _ _ hf hq hc
+  | subSignal tid =>
+    obtain ⟨t, wid, cb, hf, h⟩ := step_subSignal_elim hs
+    rcases h with ⟨i, hi, rfl⟩ | ⟨hi, rfl⟩
+    · exact .signalSome _ _ _ _ _ _ hf hi
+    · exact .signalNone _ _ _ _ _ hf hi
+  | wStart i =>
+    rw [step_wStart] at hs; split at hs
+    · next h => cases hs; exact .wStart _ _ h
+    · cases hs
+  | wWake i =>
+    rw [step_wWake] at hs; split at hs
+    · next h => cases hs; exact .wWake _ _ h
+    · cases hs
+  | wSpurious i =>
+    rw [step_wSpurious] at hs; split at hs
+    · next h => cases hs; exact .wSpurious _ _ h
+    · cases hs
+  | wDone i =>
+    obtain ⟨w, cb, hw, h⟩ := step_wDone_elim hs
+    rcases h with ⟨f, fs, hp, rfl⟩ | ⟨hp, rfl⟩
+    · exact .doneNext _ _ _ _ _ _ hw hp
+    · exact .doneLast _ _ _ _ hw hp
+  | shutdownCas =>
+    rw [step_shutdownCas] at hs; split at hs
+    · next h => cases hs; exact .shutdownCas _ h
+    · cases hs
+  | closeLock =>
+    rw [step_closeLock] at hs; split at hs
+    · next h => cases hs; exact .closeLock _ h.1 h.2
+    · cases hs
+  | closeBroadcast =>
+    rw [step_closeBroadcast] at hs; split at hs
+    · next h => cases hs; exact .closeBroadcast _ h.1 (by simpa using h.2)
+    · cases hs
+  | shutdownDone =>
+    rw [step_shutdownDone] at hs; split at hs
+    · next h => cases hs; exact .shutdownDone _ h.1 (by simpa using h.2.1) h.2.2
+    · cases hs
+
+/-! ## generic list facts -/
+
+theorem sum_map_set {α} (f : α → Nat) : ∀ (l : List α) (i : Nat) (old x : α), l[i]? = some old →
+    ((l.set i x).map f).sum + f old = (l.map f).sum + f x
+  | [], i, old, x, h => by simp at h
+  | a :: l, 0, old, x, h => by
+    simp at h; subst h; simp only [List.set, List.map_cons, List.sum_cons]; omega
+  | a :: l, i+1, old, x, h => by
+    simp at h
+    have := sum_map_set f l i old x h
+    simp only [List.set, List.map_cons, List.sum_cons]; omega
+
+theorem all_exited_getElem? {l : List WState} (h : l.all (· = .exited) = true) {i : Nat} {ws : WState}
+    (hi : l[i]? = some ws) : ws = .exited := by
+  have := List.mem_of_getElem? hi
+  simp at h
+  exact h ws this
+
+theorem mem_set_cases {α} {l : List α} {i : Nat} {x y : α} (h : y ∈ l.set i x) : y = x ∨ y ∈ l := by
+  rcases List.mem_or_eq_of_mem_set h with h | h
+  · exact Or.inr h
+  · exact Or.inl h
+
+/-! ## the closed queue -/
+
+theorem relook_of_closed {s : St} (i : Nat) (hq : s.wq = none) :
+    relook s i = setWorker s i .exited none s.rwork := by
+  simp [relook, hq, loopTop]
+
+@[simp] theorem setWorker_wq (s : St) (i ws wq rw) : (setWorker s i ws wq rw).wq = wq := rfl
+@[simp] theorem setWorker_rwork (s : St) (i ws wq rw) : (setWorker s i ws wq rw).rwork = rw := rfl
+@[simp] theorem setWorker_workers (s : St) (i ws wq rw) : (setWorker s i ws wq rw).workers = s.workers.set i ws := rfl
+@[simp] theorem setWorker_started (s : St) (i ws wq rw) : (setWorker s i ws wq rw).started = s.started ++ startedOf ws := rfl
+@[simp] theorem setWorker_phase (s : St) (i ws wq rw) : (setWorker s i ws wq rw).phase = s.phase := rfl
+@[simp] theorem setWorker_accepted (s : St) (i ws wq rw) : (setWorker s i ws wq rw).accepted = s.accepted := rfl
+@[simp] theorem setWorker_inflight (s : St) (i ws wq rw) : (setWorker s i ws wq rw).inflight = s.inflight := rfl
+
+/-! ## counting live items, listing pending callbacks -/
+
+def isW (g : Nat) (w : Work) : Bool := w.wid == g
+def isWS (g : Nat) (ws : WState) : Bool := wsWid ws == some g
+def cntQ (g : Nat) (q : List Work) : Nat := q.countP (isW g)
+def cntW (g : Nat) (ws : List WState) : Nat := ws.countP (isWS g)
+
+theorem cnt_eq (g : Nat) (s : St) : cnt g s = cntQ g (s.wq.getD []) + cntW g s.workers := rfl
+
+/-- the pending callbacks of a work item, tagged with its group -/
+def wPairs (w : Work) : List (Nat × Nat) := w.pending.map fun c => (w.wid, c)
+def pairsQ (q : List Work) : List (Nat × Nat) := q.flatMap wPairs
+def wsPairs : WState → List (Nat × Nat)
+  | .running w _ => wPairs w
+  | _ => []
+def pairsW (ws : List WState) : List (Nat × Nat) := ws.flatMap wsPairs
+
+@[simp] theorem cbsOf_nil (g : Nat) : cbsOf g [] = [] := rfl
+@[simp] theorem cbsOf_append (g : Nat) (a b : List (Nat × Nat)) : cbsOf g (a ++ b) = cbsOf g a ++ cbsOf g b := by
+  simp [cbsOf]
+theorem cbsOf_cons (g : Nat) (x : Nat × Nat) (l : List (Nat × Nat)) :
+    cbsOf g (x :: l) = (if x.1 = g then [x.2] else []) ++ cbsOf g l := by
+  simp only [cbsOf, List.filter_cons]
+  by_cases h : x.1 = g <;> simp [h]
+theorem cbsOf_single (g a c : Nat) : cbsOf g [(a, c)] = if a = g then [c] else [] := by
+  simp [cbsOf_cons]
+theorem cbsOf_wPairs (g : Nat) (w : Work) : cbsOf g (wPairs w) = if w.wid = g then w.pending else [] := by
+  simp only [cbsOf, wPairs]
+  by_cases h : w.wid = g
+  · simp [h, List.filter_map, Function.comp_def]
+  · simp [h, List.filter_map, Function.comp_def]
+
+@[simp] theorem pairsQ_nil : pairsQ [] = [] := rfl
+@[simp] theorem pairsQ_cons (w : Work) (q : List Work) : pairsQ (w :: q) = wPairs w ++ pairsQ q := by
+  simp [pairsQ]
+@[simp] theorem pairsQ_append (a b : List Work) : pairsQ (a ++ b) = pairsQ a ++ pairsQ b := by
+  simp [pairsQ]
+@[simp] theorem pairsW_nil : pairsW [] = [] := rfl
+@[simp] theorem pairsW_cons (w : WState) (q : List WState) : pairsW (w :: q) = wsPairs w ++ pairsW q := by
+  simp [pairsW]
+@[simp] theorem pairsW_append (a b : List WState) : pairsW (a ++ b) = pairsW a ++ pairsW b := by
+  simp [pairsW]
+@[simp] theorem cntQ_nil (g : Nat) : cntQ g [] = 0 := rfl
+@[simp] theorem cntW_nil (g : Nat) : cntW g [] = 0 := rfl
+theorem cntQ_cons (g : Nat) (w : Work) (q : List Work) :
+    cntQ g (w :: q) = cntQ g q + if w.wid = g then 1 else 0 := by
+  simp [cntQ, List.countP_cons, isW]
+@[simp] theorem cntQ_append (g : Nat) (a b : List Work) : cntQ g (a ++ b) = cntQ g a + cntQ g b := by
+  simp [cntQ, List.countP_append]
+theorem cntW_cons (g : Nat) (w : WState) (q : List WState) :
+    cntW g (w :: q) = cntW g q + if wsWid w = some g then 1 else 0 := by
+  simp [cntW, List.countP_cons, isWS]
+@[simp] theorem cntW_append (g : Nat) (a b : List WState) : cntW g (a ++ b) = cntW g a + cntW g b := by
+  simp [cntW, List.countP_append]
+
+theorem pendingOf_eq (g : Nat) (s : St) :
+    pendingOf g s = cbsOf g (pairsQ (s.wq.getD [])) ++ cbsOf g (pairsW s.workers) := by
+  unfold pendingOf
+  congr 1
+  · generalize s.wq.getD [] = q
+    induction q with
+    | nil => rfl
+    | cons w q ih =>
+      simp only [List.filter_cons, pairsQ_cons, cbsOf_append, cbsOf_wPairs]
+      by_cases h : w.wid = g
+      · simp [h, ih]
+      · simp [h, ih]
+  · generalize s.workers = l
+    induction l with
+    | nil => rfl
+    | cons w l ih =>
+      simp only [List.flatMap_cons, pairsW_cons, cbsOf_append, ih]
+      congr 1
+      cases w <;> simp [wsPairs, cbsOf_wPairs]
+
+theorem cbsOf_pairsQ_of_cnt {g : Nat} {q : List Work} (h : cntQ g q = 0) : cbsOf g (pairsQ q) = [] := by
+  induction q with
+  | nil => rfl
+  | cons w q ih =>
+    rw [cntQ_cons] at h
+    have hw : ¬ w.wid = g := by intro hw; simp [hw] at h
+    simp only [hw, if_false, Nat.add_zero] at h
+    simp [cbsOf_wPairs, hw, ih h]
+
+theorem cbsOf_wsPairs_of_ne {g : Nat} {w : WState} (h : wsWid w ≠ some g) : cbsOf g (wsPairs w) = [] := by
+  cases w <;> simp [wsPairs]
+  next w c =>
+    simp [wsWid] at h
+    simp [cbsOf_wPairs, h]
+
+theorem cbsOf_pairsW_of_cnt {g : Nat} {q : List WState} (h : cntW g q = 0) : cbsOf g (pairsW q) = [] := by
+  induction q with
+  | nil => rfl
+  | cons w q ih =>
+    rw [cntW_cons] at h
+    have hw : ¬ wsWid w = some g := by intro hw; simp [hw] at h
+    simp only [hw, if_false, Nat.add_zero] at h
+    simp [cbsOf_wsPairs_of_ne hw, ih h]
+
+theorem wsPairs_of_wsWid_none {w : WState} (h : wsWid w = none) : wsPairs w = [] := by
+  cases w <;> simp_all [wsWid, wsPairs]
+
+theorem set_split {α} {l : List α} {i : Nat} {old : α} (h : l[i]? = some old) :
+    ∃ A B, l = A ++ old :: B ∧ A.length = i ∧ ∀ x, l.set i x = A ++ x :: B := by
+  induction l generalizing i with
+  | nil => simp at h
+  | cons a l ih =>
+    cases i with
+    | zero => simp at h; subst h; exact ⟨[], l, rfl, rfl, fun x => rfl⟩
+    | succ i =>
+      simp at h
+      obtain ⟨A, B, h1, h2, h3⟩ := ih h
+      exact ⟨a :: A, B, by simp [h1], by simp [h2], fun x => by simp [List.set, h3 x]⟩
+
+/-! ## the registration invariant of an open queue -/
+
+/-- `rw` registers exactly the groups ≠ 0 that have a live item; `ex g` counts the live items of `g`
+outside the queue -/
+structure Core (q : List Work) (rw : List Nat) (ex : Nat → Nat) : Prop where
+  nodup : rw.Nodup
+  le : ∀ g, g ≠ 0 → cntQ g q + ex g ≤ 1
+  mem : ∀ g, g ≠ 0 → (g ∈ rw ↔ cntQ g q + ex g = 1)
+
+theorem Core.of_eq {q q' : List Work} {rw : List Nat} {ex ex' : Nat → Nat} (h : Core q rw ex)
+    (hc : ∀ g, g ≠ 0 → cntQ g q + ex g = cntQ g q' + ex' g) : Core q' rw ex' :=
+  ⟨h.nodup, fun g hg => hc g hg ▸ h.le g hg, fun g hg => hc g hg ▸ h.mem g hg⟩
+
+theorem nodup_retire {rw : List Nat} (wid : Nat) (h : rw.Nodup) : (retire wid rw).Nodup := by
+  unfold retire; split
+  · exact h
+  · exact h.erase _
+
+theorem mem_retire_iff {rw : List Nat} {wid g : Nat} (h : rw.Nodup) (hg : g ≠ 0) :
+    g ∈ retire wid rw ↔ g ≠ wid ∧ g ∈ rw := by
+  unfold retire; split
+  · next h0 => subst h0; simp [hg]
+  · exact h.mem_erase_iff
+
+theorem Core.retire {q q' : List Work} {rw : List Nat} {ex ex' : Nat → Nat} (h : Core q rw ex) (wid : Nat)
+    (hc : ∀ g, g ≠ 0 → cntQ g q + ex g = cntQ g q' + ex' g + if wid = g then 1 else 0) :
+    Core q' (retire wid rw) ex' := by
+  refine ⟨nodup_retire wid h.nodup, fun g hg => ?_, fun g hg => ?_⟩
+  · have := h.le g hg; have := hc g hg; omega
+  · rw [mem_retire_iff h.nodup hg]
+    have h1 := h.le g hg; have h2 := hc g hg; have h3 := h.mem g hg
+    by_cases hw : wid = g
+    · simp only [hw, if_true] at h2
+      constructor
+      · intro hh; exact absurd hw.symm hh.1
+      · intro hh; omega
+    · simp only [hw, if_false, Nat.add_zero] at h2
+      rw [h3, h2]
+      constructor
+      · exact fun hh => hh.2
+      · exact fun hh => ⟨fun e => hw e.symm, hh⟩
+
+/-- the worker state a worker at the loop top ends in -/
+def optState : Option (Work × Nat) → WState
+  | some (w, f) => .running w f
+  | none => .waiting false
+
+theorem loopTop_some (q : List Work) (rw : List Nat) :
+    loopTop (some q) rw = (optState (takeNext q rw).1, some (takeNext q rw).2.1, (takeNext q rw).2.2) := by
+  simp only [loopTop]
+  split
+  · next h => simp [h, optState]
+  · next h => simp [h, optState]
+
+theorem takeNext_cons_some (w : Work) (rest : List Work) (rw : List Nat) {f : Nat} {fs : List Nat}
+    (h : w.pending = f :: fs) : takeNext (w :: rest) rw = (some ({ w with pending := fs }, f), rest, rw) := by
+  simp [takeNext, h]
+
+theorem takeNext_cons_nil (w : Work) (rest : List Work) (rw : List Nat)
+    (h : w.pending = []) : takeNext (w :: rest) rw = takeNext rest (retire w.wid rw) := by
+  simp [takeNext, h]
+
+theorem takeNext_core {q : List Work} {rw : List Nat} {ex : Nat → Nat} (h : Core q rw ex) :
+    Core (takeNext q rw).2.1 (takeNext q rw).2.2
+      (fun g => ex g + if wsWid (optState (takeNext q rw).1) = some g then 1 else 0) := by
+  induction q generalizing rw with
+  | nil => simpa [takeNext, optState, wsWid] using h
+  | cons w rest ih =>
+    cases hp : w.pending with
+    | cons f fs =>
+      rw [takeNext_cons_some w rest rw hp]
+      refine h.of_eq fun g hg => ?_
+      simp only [optState, wsWid, cntQ_cons, Option.some.injEq]
+      omega
+    | nil =>
+      rw [takeNext_cons_nil w rest rw hp]
+      apply ih
+      refine h.retire w.wid fun g hg => ?_
+      simp only [cntQ_cons]; omega
+
+theorem takeNext_pairs (q : List Work) (rw : List Nat) :
+    pairsQ q = startedOf (optState (takeNext q rw).1) ++ wsPairs (optState (takeNext q rw).1) ++
+      pairsQ (takeNext q rw).2.1 := by
+  induction q generalizing rw with
+  | nil => simp [takeNext, optState, startedOf, wsPairs]
+  | cons w rest ih =>
+    cases hp : w.pending with
+    | cons f fs =>
+      rw [takeNext_cons_some w rest rw hp]
+      simp [optState, startedOf, wsPairs, wPairs, hp]
+    | nil =>
+      rw [takeNext_cons_nil w rest rw hp, ← ih]
+      simp [wPairs, hp]
+
+theorem takeNext_none {q : List Work} {rw : List Nat} (h : (takeNext q rw).1 = none) : (takeNext q rw).2.1 = [] := by
+  induction q generalizing rw with
+  | nil => rfl
+  | cons w rest ih =>
+    cases hp : w.pending with
+    | cons f fs => rw [takeNext_cons_some w rest rw hp] at h; cases h
+    | nil => rw [takeNext_cons_nil w rest rw hp] at h ⊢; exact ih h
+
+/-! ## how the transitions change the counts -/
+
+theorem cntW_set {l : List WState} {i : Nat} {old : WState} (h : l[i]? = some old) (g : Nat) (x : WState) :
+    cntW g (l.set i x) + (if wsWid old = some g then 1 else 0) = cntW g l + if wsWid x = some g then 1 else 0 := by
+  obtain ⟨A, B, hl, _, hset⟩ := set_split h
+  rw [hset x]; rw [hl]
+  simp only [cntW_append, cntW_cons]; omega
+
+theorem countP_pairsW_set {l : List WState} {i : Nat} {old : WState} (h : l[i]? = some old)
+    (p : Nat × Nat → Bool) (x : WState) :
+    (pairsW (l.set i x)).countP p + (wsPairs old).countP p = (pairsW l).countP p + (wsPairs x).countP p := by
+  obtain ⟨A, B, hl, _, hset⟩ := set_split h
+  rw [hset x]; rw [hl]
+  simp only [pairsW_append, pairsW_cons, List.countP_append]; omega
+
+@[simp] theorem appendWork_wid (wid cb : Nat) (w : Work) : (appendWork wid cb w).wid = w.wid := by
+  unfold appendWork; split <;> rfl
+
+@[simp] theorem wsWid_appendWS (wid cb : Nat) (w : WState) : wsWid (appendWS wid cb w) = wsWid w := by
+  cases w <;> simp [appendWS, wsWid]
+
+@[simp] theorem cntQ_map_appendWork (g wid cb : Nat) (q : List Work) :
+    cntQ g (q.map (appendWork wid cb)) = cntQ g q := by
+  induction q with
+  | nil => rfl
+  | cons w q ih => simp [cntQ_cons, ih]
+
+@[simp] theorem cntW_map_appendWS (g wid cb : Nat) (q : List WState) :
+    cntW g (q.map (appendWS wid cb)) = cntW g q := by
+  induction q with
+  | nil => rfl
+  | cons w q ih => simp [cntW_cons, ih]
+
+theorem wPairs_appendWork (wid cb : Nat) (w : Work) :
+    wPairs (appendWork wid cb w) = wPairs w ++ if w.wid = wid then [(wid, cb)] else [] := by
+  unfold appendWork
+  split
+  · next h => simp [wPairs, h]
+  · next h => simp
+
+theorem wsPairs_appendWS (wid cb : Nat) (w : WState) :
+    wsPairs (appendWS wid cb w) = wsPairs w ++ if wsWid w = some wid then [(wid, cb)] else [] := by
+  cases w <;> simp [appendWS, wsPairs, wsWid, wPairs_appendWork]
+
+theorem countP_pairsQ_appendWork (p : Nat × Nat → Bool) (wid cb : Nat) (q : List Work) :
+    (pairsQ (q.map (appendWork wid cb))).countP p = (pairsQ q).countP p + if p (wid, cb) then cntQ wid q else 0 := by
+  induction q with
+  | nil => simp
+  | cons w q ih =>
+    simp only [List.map_cons, pairsQ_cons, List.countP_append, ih, wPairs_appendWork, cntQ_cons]
+    by_cases hw : w.wid = wid <;> by_cases hp : p (wid, cb) = true <;> simp [hw, hp] <;> omega
+
+theorem countP_pairsW_appendWS (p : Nat × Nat → Bool) (wid cb : Nat) (q : List WState) :
+    (pairsW (q.map (appendWS wid cb))).countP p = (pairsW q).countP p + if p (wid, cb) then cntW wid q else 0 := by
+  induction q with
+  | nil => simp
+  | cons w q ih =>
+    simp only [List.map_cons, pairsW_cons, List.countP_append, ih, wsPairs_appendWS, cntW_cons]
+    by_cases hw : wsWid w = some wid <;> by_cases hp : p (wid, cb) = true <;> simp [hw, hp] <;> omega
+
+def bcast : WState → WState
+  | .waiting _ => .waiting true
+  | x => x
+
+theorem broadcast_eq (s : St) : broadcast s = { s with workers := s.workers.map bcast } := by
+  simp only [broadcast]; congr
+
+@[simp] theorem wsWid_bcast (w : WState) : wsWid (bcast w) = wsWid w := by cases w <;> rfl
+@[simp] theorem wsPairs_bcast (w : WState) : wsPairs (bcast w) = wsPairs w := by cases w <;> rfl
+
+@[simp] theorem cntW_map_bcast (g : Nat) (q : List WState) : cntW g (q.map bcast) = cntW g q := by
+  induction q with
+  | nil => rfl
+  | cons w q ih => simp [cntW_cons, ih]
+
+@[simp] theorem pairsW_map_bcast (q : List WState) : pairsW (q.map bcast) = pairsW q := by
+  induction q with
+  | nil => rfl
+  | cons w q ih => simp [ih]
+
+@[simp] theorem cntW_replicate_idle (g n : Nat) : cntW g (List.replicate n .idle) = 0 := by
+  simp [cntW, List.countP_replicate, isWS, wsWid]
+
+@[simp] theorem pairsW_replicate_idle (n : Nat) : pairsW (List.replicate n .idle) = [] := by
+  induction n with
+  | zero => rfl
+  | succ n ih => simp [List.replicate_succ, ih, wsPairs]
+
+theorem pairsW_of_all_exited {l : List WState} (h : l.all (· = .exited) = true) : pairsW l = [] := by
+  induction l with
+  | nil => rfl
+  | cons w l ih =>
+    simp at h
+    simp [h.1, wsPairs, pairsW_cons, ih (by simpa using h.2)]
+
+/-! ## the inductive invariant -/
+
+structure Inv (s : St) : Prop where
+  /-- open queue: `rwork` is exactly the set of groups with a live item, each has one -/
+  core : ∀ q, s.wq = some q → Core q s.rwork (fun g => cntW g s.workers)
+  /-- closed queue: still at most one running worker per group -/
+  closed : s.wq = none → ∀ g, g ≠ 0 → cntW g s.workers ≤ 1
+  quiet : s.phase = .stopped → s.wq = none ∧ s.workers.all (· = .exited) = true
+  /-- every started or pending callback was accepted, with multiplicity -/
+  count : ∀ p : Nat × Nat → Bool,
+    s.started.countP p + (pairsQ (s.wq.getD [])).countP p + (pairsW s.workers).countP p ≤ s.accepted.countP p
+
+theorem Inv.le {s : St} (h : Inv s) (g : Nat) (hg : g ≠ 0) : cntQ g (s.wq.getD []) + cntW g s.workers ≤ 1 := by
+  cases hq : s.wq with
+  | none => simpa using h.closed hq g hg
+  | some q => exact (h.core q hq).le g hg
+
+theorem Inv.init : Inv init := by
+  refine ⟨fun q hq => (by cases hq), fun _ g _ => (by simp [Pool.init]), fun _ => ⟨rfl, rfl⟩, fun p => by simp [Pool.init]⟩
+
+theorem Inv.inflight {s : St} (h : Inv s) (l : List Sub) : Inv { s with inflight := l } :=
+  ⟨h.core, h.closed, h.quiet, h.count⟩
+
+theorem Inv.serve {s : St} (h : Inv s) (n : Nat) : Inv (served s n) := by
+  refine ⟨fun q hq => ?_, fun hq => (by cases hq), fun hp => (by cases hp), fun p => ?_⟩
+  · cases hq
+    exact ⟨List.nodup_nil, fun g _ => by simp [served], fun g _ => by simp [served]⟩
+  · have := h.count p
+    simp only [served, Option.getD_some, pairsQ_nil, pairsW_replicate_idle, List.countP_nil]
+    omega
+
+theorem Inv.shutdownCas {s : St} (h : Inv s) : Inv { s with phase := .stopping } :=
+  ⟨h.core, h.closed, fun hp => (by cases hp), h.count⟩
+
+theorem Inv.shutdownDone {s : St} (h : Inv s) (hq : s.wq = none) (hw : s.workers.all (· = .exited) = true) :
+    Inv { s with phase := .stopped } :=
+  ⟨h.core, h.closed, fun _ => ⟨hq, hw⟩, h.count⟩
+
+theorem Inv.closeLock {s : St} (h : Inv s) (hp : s.phase = .stopping) : Inv { s with wq := none } := by
+  refine ⟨fun q hq => (by cases hq), fun _ g hg => ?_, fun hp' => ?_, fun p => ?_⟩
+  · have := h.le g hg; show cntW g s.workers ≤ 1; omega
+  · have : s.phase = .stopped := hp'
+    rw [hp] at this; cases this
+  · have := h.count p
+    simp only [Option.getD_none, pairsQ_nil, List.countP_nil]
+    omega
+
+theorem Inv.broadcast {s : St} (h : Inv s) (hp : s.phase = .stopping) : Inv (broadcast s) := by
+  rw [broadcast_eq]
+  refine ⟨fun q hq => ?_, fun hq g hg => ?_, fun hp' => ?_, fun p => ?_⟩
+  · simpa using h.core q hq
+  · simpa using h.closed hq g hg
+  · have : s.phase = .stopped := hp'
+    rw [hp] at this; cases this
+  · simpa using h.count p
+
+theorem Inv.signal {s : St} (h : Inv s) (l : List Sub) {i : Nat} (hi : s.workers[i]? = some (.waiting false)) :
+    Inv { s with inflight := l, workers := s.workers.set i (.waiting true) } := by
+  have hc : ∀ g, cntW g (s.workers.set i (.waiting true)) = cntW g s.workers := fun g => by
+    have := cntW_set hi g (.waiting true); simpa [wsWid] using this
+  have hpw : ∀ p, (pairsW (s.workers.set i (.waiting true))).countP p = (pairsW s.workers).countP p := fun p => by
+    have := countP_pairsW_set hi p (.waiting true); simpa [wsPairs] using this
+  refine ⟨fun q hq => ?_, fun hq g hg => ?_, fun hp' => ?_, fun p => ?_⟩
+  · simpa only [hc] using h.core q hq
+  · simpa only [hc] using h.closed hq g hg
+  · cases all_exited_getElem? (h.quiet hp').2 hi
+  · simpa only [hpw] using h.count p
+
+theorem Inv.subAppend {s : St} (h : Inv s) {q : List Work} (hq : s.wq = some q) {wid : Nat} (h0 : wid ≠ 0)
+    (hm : wid ∈ s.rwork) (cb : Nat) (l : List Sub) : Inv (subAppend s q wid cb l) := by
+  have hc := h.core q hq
+  refine ⟨fun q' hq' => ?_, fun hq' => (by cases hq'), fun hp' => ?_, fun p => ?_⟩
+  · cases hq'
+    refine hc.of_eq fun g _ => ?_
+    simp [Pool.subAppend]
+  · have := (h.quiet hp').1; rw [hq] at this; cases this
+  · have h1 := h.count p
+    have h2 := (hc.mem wid h0).mp hm
+    simp only [hq, Option.getD_some] at h1
+    simp only [Pool.subAppend, Option.getD_some, countP_pairsQ_appendWork, countP_pairsW_appendWS,
+      List.countP_append, List.countP_cons, List.countP_nil]
+    split <;> omega
+
+theorem Inv.subNew {s : St} (h : Inv s) {q : List Work} (hq : s.wq = some q) {wid : Nat}
+    (hn : ¬ (wid ≠ 0 ∧ wid ∈ s.rwork)) (cb : Nat) (l : List Sub) : Inv (subNew s q wid cb l) := by
+  have hc := h.core q hq
+  refine ⟨fun q' hq' => ?_, fun hq' => (by cases hq'), fun hp' => ?_, fun p => ?_⟩
+  · cases hq'
+    show Core (q ++ [⟨wid, [cb]⟩]) (if wid = 0 then s.rwork else wid :: s.rwork) (fun g => cntW g s.workers)
+    by_cases h0 : wid = 0
+    · rw [if_pos h0]
+      refine hc.of_eq fun g hg => ?_
+      have : ¬ wid = g := fun e => hg (e ▸ h0)
+      simp [cntQ_cons, this]
+    · rw [if_neg h0]
+      have hnm : wid ∉ s.rwork := fun hm => hn ⟨h0, hm⟩
+      refine ⟨List.nodup_cons.mpr ⟨hnm, hc.nodup⟩, fun g hg => ?_, fun g hg => ?_⟩
+      · have h1 := hc.le g hg; have h2 := hc.mem g hg
+        simp only [cntQ_append, cntQ_cons, cntQ_nil]
+        by_cases e : wid = g
+        · subst e; simp only [if_true]
+          have : ¬ (cntQ wid q + cntW wid s.workers = 1) := fun hh => hnm (h2.mpr hh)
+          omega
+        · simp only [e, if_false]; omega
+      · have h1 := hc.le g hg; have h2 := hc.mem g hg
+        simp only [cntQ_append, cntQ_cons, cntQ_nil, List.mem_cons]
+        by_cases e : wid = g
+        · subst e; simp only [if_true, true_or, true_iff]
+          have : ¬ (cntQ wid q + cntW wid s.workers = 1) := fun hh => hnm (h2.mpr hh)
+          omega
+        · have e' : ¬ g = wid := fun hh => e hh.symm
+          simp only [e, e', if_false, false_or, h2]; omega
+  · have := (h.quiet hp').1; rw [hq] at this; cases this
+  · have h1 := h.count p
+    simp only [hq, Option.getD_some] at h1
+    simp only [Pool.subNew, Option.getD_some, pairsQ_append, pairsQ_cons, pairsQ_nil, wPairs,
+      List.countP_append, List.countP_cons, List.countP_nil, List.map_cons, List.map_nil, List.append_nil]
+    omega
+
+theorem relook_of_open {s : St} (i : Nat) {q : List Work} (hq : s.wq = some q) :
+    relook s i = setWorker s i (optState (takeNext q s.rwork).1) (some (takeNext q s.rwork).2.1)
+      (takeNext q s.rwork).2.2 := by
+  simp only [relook, hq, loopTop_some]
+
+theorem Inv.relook {s : St} (h : Inv s) {i : Nat} {old : WState} (hi : s.workers[i]? = some old)
+    (ho : wsWid old = none) (hne : old ≠ .exited) : Inv (relook s i) := by
+  have hpo := wsPairs_of_wsWid_none ho
+  cases hq : s.wq with
+  | none =>
+    rw [relook_of_closed i hq]
+    refine ⟨fun q' hq' => (by cases hq'), fun _ g hg => ?_, fun hp' => ?_, fun p => ?_⟩
+    · have h1 := cntW_set hi g .exited
+      have := h.closed hq g hg
+      rw [ho] at h1
+      simp only [wsWid, reduceCtorEq, if_false] at h1
+      simp only [setWorker_workers]; omega
+    · exact absurd (all_exited_getElem? (h.quiet hp').2 hi) hne
+    · have h1 := h.count p
+      have h2 := countP_pairsW_set hi p .exited
+      rw [hpo] at h2
+      simp only [wsPairs, List.countP_nil, hq, Option.getD_none, pairsQ_nil] at h1 h2
+      simp only [setWorker_started, setWorker_wq, setWorker_workers, setWorker_accepted, startedOf,
+        List.append_nil, Option.getD_none, pairsQ_nil, List.countP_nil]
+      omega
+  | some q =>
+    rw [relook_of_open i hq]
+    refine ⟨fun q' hq' => ?_, fun hq' => (by cases hq'), fun hp' => ?_, fun p => ?_⟩
+    · cases hq'
+      refine (takeNext_core (h.core q hq)).of_eq fun g _ => ?_
+      have := cntW_set hi g (optState (takeNext q s.rwork).1)
+      simp only [ho] at this
+      simp only [setWorker_workers]
+      simp only [reduceCtorEq, if_false] at this
+      omega
+    · have := (h.quiet hp').1; rw [hq] at this; cases this
+    · have h1 := h.count p
+      have h2 := countP_pairsW_set hi p (optState (takeNext q s.rwork).1)
+      have h3 := congrArg (List.countP p) (takeNext_pairs q s.rwork)
+      simp only [hpo, List.countP_nil, hq, Option.getD_some, List.countP_append] at h1 h2 h3
+      simp only [setWorker_started, setWorker_wq, setWorker_workers, setWorker_accepted,
+        Option.getD_some, List.countP_append]
+      omega
+
+theorem Inv.finish {s : St} (h : Inv s) {i : Nat} {w : Work} {cb : Nat}
+    (hi : s.workers[i]? = some (.running w cb)) (hp : w.pending = []) : Inv (finish s i w cb) := by
+  have hc : ∀ g, cntW g (s.workers.set i .idle) + (if w.wid = g then 1 else 0) = cntW g s.workers := fun g => by
+    have := cntW_set hi g .idle; simpa [wsWid] using this
+  have hpw : ∀ p, (pairsW (s.workers.set i .idle)).countP p = (pairsW s.workers).countP p := fun p => by
+    have := countP_pairsW_set hi p .idle; simpa [wsPairs, wPairs, hp] using this
+  refine ⟨fun q hq => ?_, fun hq g hg => ?_, fun hp' => ?_, fun p => ?_⟩
+  · refine (h.core q hq).retire w.wid fun g _ => ?_
+    have := hc g
+    simp only [Pool.finish]; omega
+  · have := h.closed hq g hg; have := hc g
+    simp only [Pool.finish]; omega
+  · cases all_exited_getElem? (h.quiet hp').2 hi
+  · simpa only [Pool.finish, hpw] using h.count p
+
+theorem Inv.next {s : St} (h : Inv s) {i : Nat} {w : Work} {cb f : Nat} {fs : List Nat}
+    (hi : s.workers[i]? = some (.running w cb)) (hp : w.pending = f :: fs) : Inv (next s i w cb f fs) := by
+  have hc : ∀ g, cntW g (s.workers.set i (.running { w with pending := fs } f)) = cntW g s.workers := fun g => by
+    have := cntW_set hi g (.running { w with pending := fs } f); simpa [wsWid] using this
+  refine ⟨fun q hq => ?_, fun hq g hg => ?_, fun hp' => ?_, fun p => ?_⟩
+  · simpa only [Pool.next, setWorker_workers, setWorker_rwork, hc] using h.core q hq
+  · simpa only [Pool.next, setWorker_workers, hc] using h.closed hq g hg
+  · cases all_exited_getElem? (h.quiet hp').2 hi
+  · have h1 := h.count p
+    have h2 := countP_pairsW_set hi p (.running { w with pending := fs } f)
+    simp only [wsPairs, wPairs, hp, List.map_cons, List.countP_cons] at h2
+    simp only [Pool.next, setWorker_started, setWorker_wq, setWorker_workers, setWorker_accepted, startedOf,
+      List.countP_append, List.countP_cons, List.countP_nil]
+    omega
+
+theorem Inv.step {s s' : St} {a : Act} (h : Inv s) (hs : step s a = some s') : Inv s' := by
+  cases step_Step hs with
+  | serve n => exact h.serve n
+  | checkFail => exact h
+  | checkPass | lockClosed | signalNone => exact h.inflight _
+  | lockAppend _ _ _ _ q _ hq h0 hm => exact h.subAppend hq h0 hm _ _
+  | lockNew _ _ _ _ q _ hq hn => exact h.subNew hq hn _ _
+  | signalSome _ _ _ _ i _ hi =>
+    have hi' := List.find?_some hi
+    simp only [decide_eq_true_eq] at hi'
+    exact h.signal _ hi'
+  | wStart _ hi | wWake _ hi | wSpurious _ hi => exact h.relook hi rfl (by simp)
+  | doneNext _ _ _ _ _ hi hp => exact h.next hi hp
+  | doneLast i w cb hi hp =>
+    have hlt : i < s.workers.length := (List.getElem?_eq_some_iff.mp hi).1
+    exact (h.finish hi hp).relook (old := .idle) (by simp [Pool.finish, hlt]) rfl (by simp)
+  | shutdownCas => exact h.shutdownCas
+  | closeLock hp _ => exact h.closeLock hp
+  | closeBroadcast hp _ => exact h.broadcast hp
+  | shutdownDone _ hq hw => exact h.shutdownDone hq hw
+
+theorem Inv.run {acts : List Act} {s s' : St} (h : Inv s) (hr : run s acts = some s') : Inv s' := by
+  induction acts generalizing s with
+  | nil => simp [Pool.run] at hr; exact hr ▸ h
+  | cons a as ih =>
+    simp only [Pool.run] at hr
+    cases hs : Pool.step s a with
+    | none => simp [hs] at hr
+    | some m => rw [hs] at hr; exact ih (h.step hs) hr
+
+theorem Inv.reachable {acts : List Act} {s : St} (hr : Pool.run Pool.init acts = some s) : Inv s :=
+  Inv.run Inv.init hr
+
+/-! ## mutual exclusion from the counts -/
+
+theorem index_unique_of_countP_le_one {α} {p : α → Bool} {l : List α} (h : l.countP p ≤ 1) {i j : Nat} {a b : α}
+    (hi : l[i]? = some a) (hj : l[j]? = some b) (pa : p a = true) (pb : p b = true) : i = j := by
+  induction l generalizing i j with
+  | nil => simp at hi
+  | cons x l ih =>
+    rw [List.countP_cons] at h
+    cases i with
+    | zero =>
+      cases j with
+      | zero => rfl
+      | succ j =>
+        simp at hi hj; subst hi
+        have : 0 < l.countP p := List.countP_pos_iff.mpr ⟨b, List.mem_of_getElem? hj, pb⟩
+        simp only [pa, if_true] at h; omega
+    | succ i =>
+      cases j with
+      | zero =>
+        simp at hi hj; subst hj
+        have : 0 < l.countP p := List.countP_pos_iff.mpr ⟨a, List.mem_of_getElem? hi, pa⟩
+        simp only [pb, if_true] at h; omega
+      | succ j =>
+        simp at hi hj
+        rw [ih (by omega) hi hj]
+
+theorem mem_runningWids {l : List WState} {g : Nat}
+    (h : g ∈ ((l.flatMap startedOf).filter (·.1 != 0)).map (·.1)) : 0 < cntW g l := by
+  simp only [List.mem_map, List.mem_filter, List.mem_flatMap] at h
+  obtain ⟨x, ⟨⟨ws, hws, hx⟩, _⟩, rfl⟩ := h
+  refine List.countP_pos_iff.mpr ⟨ws, hws, ?_⟩
+  cases ws <;> simp [startedOf] at hx
+  subst hx; simp [isWS, wsWid]
+
+theorem nodup_runningWids {l : List WState} (h : ∀ g, g ≠ 0 → cntW g l ≤ 1) :
+    (((l.flatMap startedOf).filter (·.1 != 0)).map (·.1)).Nodup := by
+  induction l with
+  | nil => simp
+  | cons ws l ih =>
+    have ih' := ih fun g hg => by have := h g hg; rw [cntW_cons] at this; omega
+    cases ws with
+    | running w c =>
+      by_cases h0 : w.wid = 0
+      · simpa [startedOf, List.filter_cons, h0] using ih'
+      · simp only [List.flatMap_cons, startedOf, List.cons_append, List.nil_append, List.filter_cons, bne_iff_ne,
+          ne_eq, h0, not_false_eq_true, if_true, List.map_cons, List.nodup_cons]
+        refine ⟨fun hm => ?_, ih'⟩
+        have := mem_runningWids hm
+        have := h w.wid h0
+        rw [cntW_cons] at this
+        simp [wsWid] at this; omega
+    | _ => simpa [startedOf] using ih'
+
+/-! ## what a transition does to one group -/
+
+/-- the effect of a transition on the callbacks of one group, as (accepted, started, pending);
+`d` says whether dropping the pending ones is allowed (`closeLock` only) -/
+inductive VStep (d : Prop) : List Nat × List Nat × List Nat → List Nat × List Nat × List Nat → Prop
+  | same (v) : VStep d v v
+  | accept (a st p c) : VStep d (a, st, p) (a ++ [c], st, p ++ [c])
+  | start (a st p f) : VStep d (a, st, f :: p) (a, st ++ [f], p)
+  | drop (a st p) : d → VStep d (a, st, p) (a, st, [])
+
+def view (g : Nat) (s : St) : List Nat × List Nat × List Nat :=
+  (cbsOf g s.accepted, cbsOf g s.started, pendingOf g s)
+
+theorem vstep_same {d : Prop} {g : Nat} {s s' : St} (h1 : cbsOf g s'.accepted = cbsOf g s.accepted)
+    (h2 : cbsOf g s'.started = cbsOf g s.started) (h3 : pendingOf g s' = pendingOf g s) :
+    VStep d (view g s) (view g s') := by
+  simp only [view, h1, h2, h3]; exact .same _
+
+theorem vstep_accept {d : Prop} {g : Nat} {s s' : St} (c : Nat) (h1 : cbsOf g s'.accepted = cbsOf g s.accepted ++ [c])
+    (h2 : cbsOf g s'.started = cbsOf g s.started) (h3 : pendingOf g s' = pendingOf g s ++ [c]) :
+    VStep d (view g s) (view g s') := by
+  simp only [view, h1, h2, h3]; exact .accept ..
+
+theorem vstep_start {d : Prop} {g : Nat} {s s' : St} (f : Nat) (h1 : cbsOf g s'.accepted = cbsOf g s.accepted)
+    (h2 : cbsOf g s'.started = cbsOf g s.started ++ [f]) (h3 : pendingOf g s = f :: pendingOf g s') :
+    VStep d (view g s) (view g s') := by
+  simp only [view, h1, h2, h3]; exact .start ..
+
+theorem vstep_drop {d : Prop} {g : Nat} {s s' : St} (hd : d) (h1 : cbsOf g s'.accepted = cbsOf g s.accepted)
+    (h2 : cbsOf g s'.started = cbsOf g s.started) (h3 : pendingOf g s' = []) :
+    VStep d (view g s) (view g s') := by
+  simp only [view, h1, h2, h3]; exact .drop _ _ _ hd
+
+theorem cbsOf_pairsQ_appendWork (g wid cb : Nat) (q : List Work) (h : cntQ wid q ≤ 1) :
+    cbsOf g (pairsQ (q.map (appendWork wid cb))) =
+      cbsOf g (pairsQ q) ++ if g = wid ∧ cntQ wid q = 1 then [cb] else [] := by
+  induction q with
+  | nil => simp
+  | cons w q ih =>
+    rw [cntQ_cons] at h
+    by_cases hw : w.wid = wid
+    · simp only [hw, if_true] at h
+      have h0 : cntQ wid q = 0 := by omega
+      have ih' := ih (by omega)
+      simp only [h0, Nat.zero_ne_one, and_false, if_false, List.append_nil] at ih'
+      simp only [List.map_cons, pairsQ_cons, cbsOf_append, wPairs_appendWork, hw, if_true, ih', cntQ_cons,
+        cbsOf_single, h0]
+      by_cases hg : g = wid
+      · subst hg; simp [cbsOf_pairsQ_of_cnt h0]
+      · have : ¬ wid = g := fun e => hg e.symm
+        simp [hg, this]
+    · simp only [hw, if_false, Nat.add_zero] at h
+      simp only [List.map_cons, pairsQ_cons, cbsOf_append, wPairs_appendWork, hw, if_false, ih h, cntQ_cons,
+        List.append_nil, Nat.add_zero, List.append_assoc]
+
+theorem cbsOf_pairsW_appendWS (g wid cb : Nat) (q : List WState) (h : cntW wid q ≤ 1) :
+    cbsOf g (pairsW (q.map (appendWS wid cb))) =
+      cbsOf g (pairsW q) ++ if g = wid ∧ cntW wid q = 1 then [cb] else [] := by
+  induction q with
+  | nil => simp
+  | cons w q ih =>
+    rw [cntW_cons] at h
+    by_cases hw : wsWid w = some wid
+    · simp only [hw, if_true] at h
+      have h0 : cntW wid q = 0 := by omega
+      have ih' := ih (by omega)
+      simp only [h0, Nat.zero_ne_one, and_false, if_false, List.append_nil] at ih'
+      simp only [List.map_cons, pairsW_cons, cbsOf_append, wsPairs_appendWS, hw, if_true, ih', cntW_cons,
+        cbsOf_single, h0]
+      by_cases hg : g = wid
+      · subst hg; simp [cbsOf_pairsW_of_cnt h0]
+      · have : ¬ wid = g := fun e => hg e.symm
+        simp [hg, this]
+    · simp only [hw, if_false, Nat.add_zero] at h
+      simp only [List.map_cons, pairsW_cons, cbsOf_append, wsPairs_appendWS, hw, if_false, ih h, cntW_cons,
+        List.append_nil, Nat.add_zero, List.append_assoc]
+
+
+theorem VStep.mono {d d' : Prop} {v v'} (h : VStep d v v') (hd : d → d') : VStep d' v v' := by
+  cases h with
+  | same => exact .same _
+  | accept => exact .accept ..
+  | start => exact .start ..
+  | drop _ _ _ x => exact .drop _ _ _ (hd x)
+
+theorem pairsW_set_of_nil {l : List WState} {i : Nat} {old x : WState} (h : l[i]? = some old)
+    (ho : wsPairs old = []) (hx : wsPairs x = []) : pairsW (l.set i x) = pairsW l := by
+  obtain ⟨A, B, hl, _, hset⟩ := set_split h
+  rw [hset x]; rw [hl]; simp [ho, hx]
+
+theorem view_subAppend {d : Prop} {s : St} (h : Inv s) {q : List Work} (hq : s.wq = some q) {wid : Nat} (h0 : wid ≠ 0)
+    (hm : wid ∈ s.rwork) (cb : Nat) (l : List Sub) (g : Nat) :
+    VStep d (view g s) (view g (subAppend s q wid cb l)) := by
+  have hc := h.core q hq
+  have hle := hc.le wid h0
+  have h1 := (hc.mem wid h0).mp hm
+  have hpend : pendingOf g (subAppend s q wid cb l) = pendingOf g s ++ if g = wid then [cb] else [] := by
+    rw [pendingOf_eq, pendingOf_eq]
+    simp only [subAppend, hq, Option.getD_some]
+    rw [cbsOf_pairsQ_appendWork _ _ _ _ (by omega), cbsOf_pairsW_appendWS _ _ _ _ (by omega)]
+    by_cases hg : g = wid
+    · subst hg
+      rcases (by omega : (cntQ g q = 1 ∧ cntW g s.workers = 0) ∨ (cntQ g q = 0 ∧ cntW g s.workers = 1)) with ⟨a, b⟩ | ⟨a, b⟩
+      · simp [a, b, cbsOf_pairsW_of_cnt b]
+      · simp [a, b]
+    · simp [hg]
+  by_cases hg : g = wid
+  · subst hg
+    refine vstep_accept cb ?_ rfl ?_
+    · simp [subAppend, cbsOf_single]
+    · simpa using hpend
+  · have : ¬ wid = g := fun e => hg e.symm
+    refine vstep_same ?_ rfl ?_
+    · simp [subAppend, cbsOf_single, this]
+    · simpa [hg] using hpend
+
+theorem view_subNew {d : Prop} {s : St} (h : Inv s) {q : List Work} (hq : s.wq = some q) {wid : Nat}
+    (hn : ¬ (wid ≠ 0 ∧ wid ∈ s.rwork)) (cb : Nat) (l : List Sub) (g : Nat) (hg0 : g ≠ 0) :
+    VStep d (view g s) (view g (subNew s q wid cb l)) := by
+  have hc := h.core q hq
+  by_cases hg : g = wid
+  · subst hg
+    have hle := hc.le g hg0
+    have hmem := hc.mem g hg0
+    have hnm : g ∉ s.rwork := fun hm => hn ⟨hg0, hm⟩
+    have : ¬ (cntQ g q + cntW g s.workers = 1) := fun hh => hnm (hmem.mpr hh)
+    have hW : cntW g s.workers = 0 := by omega
+    refine vstep_accept cb ?_ rfl ?_
+    · simp [subNew, cbsOf_single]
+    · rw [pendingOf_eq, pendingOf_eq]
+      simp [subNew, hq, wPairs, cbsOf_single, cbsOf_pairsW_of_cnt hW]
+  · have : ¬ wid = g := fun e => hg e.symm
+    refine vstep_same ?_ rfl ?_
+    · simp [subNew, cbsOf_single, this]
+    · rw [pendingOf_eq, pendingOf_eq]
+      simp [subNew, hq, wPairs, cbsOf_single, this]
+
+theorem view_signal {d : Prop} {s : St} (l : List Sub) {i : Nat} (hi : s.workers[i]? = some (.waiting false)) (g : Nat) :
+    VStep d (view g s) (view g { s with inflight := l, workers := s.workers.set i (.waiting true) }) := by
+  refine vstep_same rfl rfl ?_
+  rw [pendingOf_eq, pendingOf_eq]
+  simp only [pairsW_set_of_nil (x := .waiting true) hi rfl rfl]
+
+theorem view_broadcast {d : Prop} (s : St) (g : Nat) : VStep d (view g s) (view g (broadcast s)) := by
+  refine vstep_same rfl rfl ?_
+  rw [pendingOf_eq, pendingOf_eq, broadcast_eq]
+  simp
+
+theorem view_serve {d : Prop} {s : St} (h : Inv s) (hp : s.phase = .stopped) (n : Nat) (g : Nat) :
+    VStep d (view g s) (view g (served s n)) := by
+  refine vstep_same rfl rfl ?_
+  obtain ⟨hq, hw⟩ := h.quiet hp
+  rw [pendingOf_eq, pendingOf_eq]
+  simp [served, hq, pairsW_of_all_exited hw]
+
+theorem view_closeLock {s : St} (h : Inv s) (g : Nat) (hg0 : g ≠ 0) :
+    VStep True (view g s) (view g { s with wq := none }) := by
+  have hle := h.le g hg0
+  by_cases hc : cntQ g (s.wq.getD []) = 0
+  · refine vstep_same rfl rfl ?_
+    rw [pendingOf_eq, pendingOf_eq]
+    simp [cbsOf_pairsQ_of_cnt hc]
+  · refine vstep_drop trivial rfl rfl ?_
+    have hW : cntW g s.workers = 0 := by omega
+    rw [pendingOf_eq]
+    simp [cbsOf_pairsW_of_cnt hW]
+
+theorem view_finish {s : St} {i : Nat} {w : Work} {cb : Nat}
+    (hi : s.workers[i]? = some (.running w cb)) (hp : w.pending = []) (g : Nat) :
+    view g (finish s i w cb) = view g s := by
+  have : pendingOf g (finish s i w cb) = pendingOf g s := by
+    rw [pendingOf_eq, pendingOf_eq]
+    simp only [finish, pairsW_set_of_nil (x := .idle) hi (show wsPairs (.running w cb) = [] by simp [wsPairs, wPairs, hp]) rfl]
+  simp only [view, this]; rfl
+
+theorem view_next {d : Prop} {s : St} (h : Inv s) {i : Nat} {w : Work} {cb f : Nat} {fs : List Nat}
+    (hi : s.workers[i]? = some (.running w cb)) (hp : w.pending = f :: fs) (g : Nat) (hg0 : g ≠ 0) :
+    VStep d (view g s) (view g (next s i w cb f fs)) := by
+  obtain ⟨A, B, hl, _, hset⟩ := set_split hi
+  have hle := h.le g hg0
+  rw [hl] at hle
+  simp only [cntW_append, cntW_cons, wsWid, Option.some.injEq] at hle
+  by_cases hg : w.wid = g
+  · simp only [hg, if_true] at hle
+    have hQ : cntQ g (s.wq.getD []) = 0 := by omega
+    have hA : cntW g A = 0 := by omega
+    have hB : cntW g B = 0 := by omega
+    refine vstep_start f rfl ?_ ?_
+    · simp [next, startedOf, cbsOf_single, hg]
+    · rw [pendingOf_eq, pendingOf_eq]
+      simp only [next, setWorker_wq, setWorker_workers, hset]
+      rw [hl]
+      simp [cbsOf_pairsQ_of_cnt hQ, cbsOf_pairsW_of_cnt hA, cbsOf_pairsW_of_cnt hB, wsPairs, cbsOf_wPairs, hg, hp]
+  · refine vstep_same rfl ?_ ?_
+    · simp [next, startedOf, cbsOf_single, hg]
+    · rw [pendingOf_eq, pendingOf_eq]
+      simp only [next, setWorker_wq, setWorker_workers, hset]
+      rw [hl]
+      simp [wsPairs, cbsOf_wPairs, hg]
+
+theorem cbsOf_startedOf (g : Nat) (ws : WState) (h : wsWid ws ≠ some g) : cbsOf g (startedOf ws) = [] := by
+  cases ws <;> simp [startedOf]
+  next w c => simp [wsWid] at h; simp [cbsOf_single, h]
+
+theorem view_relook {d : Prop} {s : St} (h : Inv s) {i : Nat} {old : WState} (hi : s.workers[i]? = some old)
+    (ho : wsWid old = none) (hne : old ≠ .exited) (g : Nat) (hg0 : g ≠ 0) :
+    VStep d (view g s) (view g (relook s i)) := by
+  have hpo := wsPairs_of_wsWid_none ho
+  have hI' := h.relook hi ho hne
+  cases hq : s.wq with
+  | none =>
+    rw [relook_of_closed i hq]
+    refine vstep_same rfl (by simp [startedOf]) ?_
+    rw [pendingOf_eq, pendingOf_eq]
+    simp only [setWorker_wq, setWorker_workers, pairsW_set_of_nil (x := .exited) hi hpo rfl, hq]
+  | some q =>
+    rw [relook_of_open i hq] at hI' ⊢
+    obtain ⟨A, B, hl, _, hset⟩ := set_split hi
+    have hle := hI'.le g hg0
+    have hpairs := takeNext_pairs q s.rwork
+    generalize optState (takeNext q s.rwork).1 = ws' at *
+    generalize (takeNext q s.rwork).2.1 = q' at *
+    generalize (takeNext q s.rwork).2.2 = rw' at *
+    simp only [setWorker_wq, setWorker_workers, hset, Option.getD_some, cntW_append, cntW_cons] at hle
+    have hpend : pendingOf g s = cbsOf g (startedOf ws') ++ cbsOf g (wsPairs ws') ++ cbsOf g (pairsQ q') ++
+        (cbsOf g (pairsW A) ++ cbsOf g (pairsW B)) := by
+      rw [pendingOf_eq, hq, hl]
+      simp [hpairs, hpo]
+    have hpend' : pendingOf g (setWorker s i ws' (some q') rw') = cbsOf g (pairsQ q') ++
+        (cbsOf g (pairsW A) ++ cbsOf g (wsPairs ws') ++ cbsOf g (pairsW B)) := by
+      rw [pendingOf_eq]
+      simp [hset]
+    by_cases hg : wsWid ws' = some g
+    · simp only [hg, if_true] at hle
+      have hQ : cntQ g q' = 0 := by omega
+      have hA : cntW g A = 0 := by omega
+      have hB : cntW g B = 0 := by omega
+      cases ws' with
+      | running w' f =>
+        simp [wsWid] at hg
+        refine vstep_start f rfl ?_ ?_
+        · simp [startedOf, cbsOf_single, hg]
+        · rw [hpend, hpend']
+          simp [cbsOf_pairsQ_of_cnt hQ, cbsOf_pairsW_of_cnt hA, cbsOf_pairsW_of_cnt hB, startedOf, cbsOf_single, hg]
+      | _ => simp [wsWid] at hg
+    · refine vstep_same rfl ?_ ?_
+      · simp [cbsOf_startedOf g ws' hg]
+      · rw [hpend, hpend']
+        simp [cbsOf_startedOf g ws' hg, cbsOf_wsPairs_of_ne hg]
+
+theorem vstep {s s' : St} {a : Act} (h : Inv s) (hs : step s a = some s') (g : Nat) (hg : g ≠ 0) :
+    VStep (a = .closeLock) (view g s) (view g s') := by
+  cases step_Step hs with
+  | serve n hp => exact view_serve h hp n g
+  | checkFail | checkPass | lockClosed | signalNone | shutdownCas | shutdownDone => exact .same _
+  | lockAppend _ _ _ _ q _ hq h0 hm => exact view_subAppend h hq h0 hm _ _ g
+  | lockNew _ _ _ _ q _ hq hn => exact view_subNew h hq hn _ _ g hg
+  | signalSome _ _ _ _ i _ hi =>
+    have hi' := List.find?_some hi
+    simp only [decide_eq_true_eq] at hi'
+    exact view_signal _ hi' g
+  | wStart _ hi | wWake _ hi | wSpurious _ hi => exact view_relook h hi rfl (by simp) g hg
+  | doneNext _ _ _ _ _ hi hp => exact view_next h hi hp g hg
+  | doneLast i w cb hi hp =>
+    have hlt : i < s.workers.length := (List.getElem?_eq_some_iff.mp hi).1
+    rw [← view_finish hi hp g]
+    exact view_relook (h.finish hi hp) (old := .idle) (by simp [finish, hlt]) rfl (by simp) g hg
+  | closeLock => exact (view_closeLock h g hg).mono fun _ => rfl
+  | closeBroadcast => exact view_broadcast s g
+
+/-! ## order and exactly-once, per group -/
+
+/-- exactly-once, in order: accepted = started ++ pending -/
+def Fifo (v : List Nat × List Nat × List Nat) : Prop := v.2.1 ++ v.2.2 = v.1
+
+/-- order with drops: the pending ones are the tail of accepted, the started ones a subsequence of the rest -/
+def Ord (v : List Nat × List Nat × List Nat) : Prop := ∃ pre, v.1 = pre ++ v.2.2 ∧ v.2.1.Sublist pre
+
+theorem VStep.fifo {v v'} (h : VStep False v v') (hf : Fifo v) : Fifo v' := by
+  cases h with
+  | same => exact hf
+  | accept a st p c => simp only [Fifo] at hf ⊢; rw [← hf]; simp
+  | start a st p f => simp only [Fifo] at hf ⊢; rw [← hf]; simp
+  | drop _ _ _ x => exact x.elim
+
+theorem VStep.ord {d : Prop} {v v'} (h : VStep d v v') (hf : Ord v) : Ord v' := by
+  cases h with
+  | same => exact hf
+  | accept a st p c =>
+    obtain ⟨pre, h1, h2⟩ := hf
+    exact ⟨pre, by simp only at h1 ⊢; rw [h1]; simp, h2⟩
+  | start a st p f =>
+    obtain ⟨pre, h1, h2⟩ := hf
+    exact ⟨pre ++ [f], by simp only at h1 ⊢; rw [h1]; simp, h2.append (List.Sublist.refl _)⟩
+  | drop a st p x =>
+    obtain ⟨pre, h1, h2⟩ := hf
+    exact ⟨pre ++ p, by simp only at h1 ⊢; rw [h1]; simp, h2.trans (List.sublist_append_left _ _)⟩
+
+theorem fifo_run {acts : List Act} {s s' : St} (h : Inv s) (hr : run s acts = some s') (hno : Act.closeLock ∉ acts)
+    (g : Nat) (hg : g ≠ 0) (hf : Fifo (view g s)) : Fifo (view g s') := by
+  induction acts generalizing s with
+  | nil => simp [run] at hr; exact hr ▸ hf
+  | cons a as ih =>
+    simp only [run] at hr
+    cases hs : step s a with
+    | none => simp [hs] at hr
+    | some m =>
+      rw [hs] at hr
+      have hne : a ≠ .closeLock := fun e => hno (e ▸ List.mem_cons_self)
+      exact ih (h.step hs) hr (fun hm => hno (List.mem_cons_of_mem _ hm))
+        (((vstep h hs g hg).mono fun e => hne e).fifo hf)
+
+theorem ord_run {acts : List Act} {s s' : St} (h : Inv s) (hr : run s acts = some s')
+    (g : Nat) (hg : g ≠ 0) (hf : Ord (view g s)) : Ord (view g s') := by
+  induction acts generalizing s with
+  | nil => simp [run] at hr; exact hr ▸ hf
+  | cons a as ih =>
+    simp only [run] at hr
+    cases hs : step s a with
+    | none => simp [hs] at hr
+    | some m =>
+      rw [hs] at hr
+      exact ih (h.step hs) hr ((vstep h hs g hg).ord hf)
+
+/-! ## no lost wake-up -/
+
+/-- a worker that is going to look at the queue without further help -/
+def Active (ws : WState) : Prop := ws = .idle ∨ ws = .waiting true ∨ ∃ w c, ws = .running w c
+
+theorem tid_inj {l : List Sub} (hp : l.Pairwise (fun a b : Sub => a.tid ≠ b.tid)) {a b : Sub}
+    (ha : a ∈ l) (hb : b ∈ l) (h : a.tid = b.tid) : a = b := by
+  induction l with
+  | nil => cases ha
+  | cons x l ih =>
+    rw [List.pairwise_cons] at hp
+    rcases List.mem_cons.mp ha with rfl | ha' <;> rcases List.mem_cons.mp hb with rfl | hb'
+    · rfl
+    · exact absurd h (hp.1 _ hb')
+    · exact absurd h.symm (hp.1 _ ha')
+    · exact ih hp.2 ha' hb'
+
+structure InvW (s : St) : Prop where
+  nonempty : s.wq.isSome = true → s.workers ≠ []
+  noExit : s.wq.isSome = true → ∀ ws ∈ s.workers, ws ≠ .exited
+  /-- `waitOrder` knows every unsignalled waiter, so `Signal` finds one if there is one -/
+  waitOrd : ∀ i, s.workers[i]? = some (.waiting false) → i ∈ s.waitOrder
+  tids : s.inflight.Pairwise (fun a b => a.tid ≠ b.tid)
+  nlw : ∀ q, s.wq = some q → q ≠ [] →
+    (∃ ws ∈ s.workers, Active ws) ∨ (∃ e ∈ s.inflight, e.needSignal = true)
+
+theorem InvW.init : InvW init :=
+  ⟨fun h => (by cases h), fun h => (by cases h), fun i h => by simp [Pool.init] at h, List.Pairwise.nil,
+    fun q h => by cases h⟩
+
+theorem InvW.serve {s : St} (h : InvW s) {n : Nat} (hn : 1 ≤ n) : InvW (served s n) := by
+  refine ⟨fun _ => ?_, fun _ ws hws => ?_, fun i hi => ?_, h.tids, fun q hq hne => ?_⟩
+  · simp [served]; omega
+  · simp [served] at hws; simp [hws.2]
+  · simp [served, List.getElem?_replicate] at hi
+  · simp [served] at hq; exact absurd hq hne
+
+theorem InvW.filter {s : St} (h : InvW s) (tid : Nat) (hq : s.wq = none) :
+    InvW { s with inflight := s.inflight.filter (·.tid ≠ tid) } :=
+  ⟨h.nonempty, h.noExit, h.waitOrd, h.tids.filter _, fun q hq' => by rw [hq] at hq'; cases hq'⟩
+
+theorem InvW.checkPass {s : St} (h : InvW s) {tid : Nat} (wid cb : Nat) (ht : s.inflight.all (·.tid ≠ tid) = true) :
+    InvW { s with inflight := s.inflight ++ [⟨tid, wid, cb, false⟩] } := by
+  refine ⟨h.nonempty, h.noExit, h.waitOrd, ?_, fun q hq hne => ?_⟩
+  · simp only [List.pairwise_append, List.pairwise_cons, List.Pairwise.nil, and_true]
+    refine ⟨h.tids, by simp, fun a ha b hb => ?_⟩
+    simp at hb; subst hb
+    simp at ht; exact ht a ha
+  · rcases h.nlw q hq hne with hw | ⟨e, he, hs⟩
+    · exact Or.inl hw
+    · exact Or.inr ⟨e, List.mem_append_left _ he, hs⟩
+
+theorem active_appendWS {wid cb : Nat} {ws : WState} (h : Active ws) : Active (appendWS wid cb ws) := by
+  rcases h with rfl | rfl | ⟨w, c, rfl⟩
+  · exact Or.inl rfl
+  · exact Or.inr (Or.inl rfl)
+  · exact Or.inr (Or.inr ⟨_, _, rfl⟩)
+
+theorem appendWS_eq_iff_of_not_running {wid cb : Nat} {ws x : WState} (hx : ∀ w c, x ≠ .running w c)
+    (h : appendWS wid cb ws = x) : ws = x := by
+  cases ws <;> simp [appendWS] at h ⊢ <;> try exact h
+  exact absurd h.symm (hx _ _)
+
+theorem InvW.subAppend {s : St} (h : InvW s) {q : List Work} (hq : s.wq = some q) {tid t wid cb : Nat}
+    (hf : s.inflight.find? (·.tid = tid) = some ⟨t, wid, cb, false⟩) :
+    InvW (subAppend s q wid cb (s.inflight.filter (·.tid ≠ tid))) := by
+  have hqs : s.wq.isSome = true := by simp [hq]
+  refine ⟨fun _ => ?_, fun _ ws hws => ?_, fun i hi => ?_, h.tids.filter _, fun q' hq' hne => ?_⟩
+  · simpa [Pool.subAppend] using h.nonempty hqs
+  · simp only [Pool.subAppend, List.mem_map] at hws
+    obtain ⟨x, hx, rfl⟩ := hws
+    intro he
+    exact h.noExit hqs x hx (appendWS_eq_iff_of_not_running (by simp) he)
+  · simp only [Pool.subAppend, List.getElem?_map, Option.map_eq_some_iff] at hi
+    obtain ⟨x, hx, he⟩ := hi
+    rw [appendWS_eq_iff_of_not_running (by simp) he] at hx
+    exact h.waitOrd i hx
+  · simp only [Pool.subAppend, Option.some.injEq] at hq'
+    subst hq'
+    have hne' : q ≠ [] := fun e => hne (by simp [e])
+    rcases h.nlw q hq hne' with ⟨ws, hws, ha⟩ | ⟨e, he, hs⟩
+    · exact Or.inl ⟨_, List.mem_map_of_mem hws, active_appendWS ha⟩
+    · refine Or.inr ⟨e, ?_, hs⟩
+      simp only [Pool.subAppend, List.mem_filter, he, true_and, decide_eq_true_eq]
+      intro het
+      have hx := List.mem_of_find?_eq_some hf
+      have hxt := List.find?_some hf
+      simp only [decide_eq_true_eq] at hxt
+      have := tid_inj h.tids he hx (het.trans hxt.symm)
+      subst this
+      simp at hs
+
+theorem InvW.subNew {s : St} (h : InvW s) {q : List Work} (hq : s.wq = some q) (tid wid cb : Nat) :
+    InvW (subNew s q wid cb (s.inflight.filter (·.tid ≠ tid) ++ [⟨tid, wid, cb, true⟩])) := by
+  have hqs : s.wq.isSome = true := by simp [hq]
+  refine ⟨fun _ => h.nonempty hqs, fun _ => h.noExit hqs, h.waitOrd, ?_, fun q' _ _ => ?_⟩
+  · simp only [Pool.subNew, List.pairwise_append, List.pairwise_cons, List.Pairwise.nil, and_true]
+    refine ⟨h.tids.filter _, by simp, fun a ha b hb => ?_⟩
+    simp at hb; subst hb
+    simp at ha; exact ha.2
+  · exact Or.inr ⟨⟨tid, wid, cb, true⟩, by simp [Pool.subNew], rfl⟩
+
+theorem InvW.signalSome {s : St} (h : InvW s) (tid : Nat) {i : Nat} (hi : s.workers[i]? = some (.waiting false)) :
+    InvW { s with inflight := s.inflight.filter (·.tid ≠ tid), workers := s.workers.set i (.waiting true) } := by
+  have hlt : i < s.workers.length := (List.getElem?_eq_some_iff.mp hi).1
+  refine ⟨fun hq => ?_, fun hq ws hws => ?_, fun j hj => ?_, h.tids.filter _, fun q' _ _ => ?_⟩
+  · simpa using h.nonempty hq
+  · rcases mem_set_cases hws with rfl | hws
+    · simp
+    · exact h.noExit hq ws hws
+  · simp only [List.getElem?_set] at hj
+    split at hj
+    · first | (split at hj <;> simp at hj) | simp at hj
+    · exact h.waitOrd j hj
+  · exact Or.inl ⟨_, List.mem_set hlt _, Or.inr (Or.inl rfl)⟩
+
+theorem InvW.signalNone {s : St} (h : InvW s) (tid : Nat)
+    (hn : s.waitOrder.find? (fun i => s.workers[i]? = some (.waiting false)) = none) :
+    InvW { s with inflight := s.inflight.filter (·.tid ≠ tid) } := by
+  refine ⟨h.nonempty, h.noExit, h.waitOrd, h.tids.filter _, fun q hq _ => ?_⟩
+  have hq : s.wq = some q := hq
+  have hqs : s.wq.isSome = true := by simp [hq]
+  left
+  rw [List.find?_eq_none] at hn
+  cases hw : s.workers with
+  | nil => exact absurd hw (h.nonempty hqs)
+  | cons ws rest =>
+    have hmem : ws ∈ s.workers := by simp [hw]
+    have h0 : s.workers[0]? = some ws := by simp [hw]
+    refine ⟨ws, List.mem_cons_self, ?_⟩
+    have hne := h.noExit hqs ws hmem
+    cases ws with
+    | idle => exact Or.inl rfl
+    | waiting b =>
+      cases b with
+      | true => exact Or.inr (Or.inl rfl)
+      | false =>
+        have := hn 0 (h.waitOrd 0 h0)
+        simp [h0] at this
+    | running w c => exact Or.inr (Or.inr ⟨_, _, rfl⟩)
+    | exited => exact absurd rfl hne
+
+theorem waitOrd_setWorker {s : St} (h : InvW s) (i : Nat) (ws : WState) (wq rw) :
+    ∀ j, (setWorker s i ws wq rw).workers[j]? = some (.waiting false) → j ∈ (setWorker s i ws wq rw).waitOrder := by
+  intro j hj
+  simp only [setWorker_workers, List.getElem?_set] at hj
+  by_cases hij : i = j
+  · subst hij
+    simp only [if_true] at hj
+    split at hj
+    · simp at hj; subst hj; simp [setWorker]
+    · cases hj
+  · simp only [hij, if_false] at hj
+    have := h.waitOrd j hj
+    have hm : j ∈ s.waitOrder.erase i := (List.mem_erase_of_ne (fun e => hij e.symm)).mpr this
+    simp only [setWorker]
+    split
+    · exact List.mem_append_left _ hm
+    · exact hm
+
+theorem InvW.relook {s : St} (h : InvW s) {i : Nat} {old : WState} (hi : s.workers[i]? = some old) :
+    InvW (relook s i) := by
+  have hlt : i < s.workers.length := (List.getElem?_eq_some_iff.mp hi).1
+  cases hq : s.wq with
+  | none =>
+    rw [relook_of_closed i hq]
+    exact ⟨fun hq' => (by cases hq'), fun hq' => (by cases hq'), waitOrd_setWorker h _ _ _ _, h.tids, fun q hq' => by cases hq'⟩
+  | some q =>
+    have hqs : s.wq.isSome = true := by simp [hq]
+    rw [relook_of_open i hq]
+    refine ⟨fun _ => ?_, fun _ ws hws => ?_, waitOrd_setWorker h _ _ _ _, h.tids, fun q' hq' hne => ?_⟩
+    · simpa using h.nonempty hqs
+    · rcases mem_set_cases hws with rfl | hws
+      · cases (takeNext q s.rwork).1 with
+        | none => simp [optState]
+        | some x => simp [optState]
+      · exact h.noExit hqs ws hws
+    · simp only [setWorker_wq, Option.some.injEq] at hq'
+      subst hq'
+      left
+      refine ⟨_, List.mem_set hlt _, ?_⟩
+      cases ho : (takeNext q s.rwork).1 with
+      | none => exact absurd (takeNext_none ho) hne
+      | some x => exact Or.inr (Or.inr ⟨_, _, rfl⟩)
+
+theorem InvW.finish {s : St} (h : InvW s) {i : Nat} {w : Work} {cb : Nat}
+    (hi : s.workers[i]? = some (.running w cb)) : InvW (finish s i w cb) := by
+  have hlt : i < s.workers.length := (List.getElem?_eq_some_iff.mp hi).1
+  refine ⟨fun hq => ?_, fun hq ws hws => ?_, fun j hj => ?_, h.tids, fun q' _ _ => ?_⟩
+  · simpa [Pool.finish] using h.nonempty hq
+  · rcases mem_set_cases hws with rfl | hws
+    · simp
+    · exact h.noExit hq ws hws
+  · simp only [Pool.finish, List.getElem?_set] at hj
+    split at hj
+    · first | (split at hj <;> simp at hj) | simp at hj
+    · exact h.waitOrd j hj
+  · exact Or.inl ⟨_, List.mem_set hlt _, Or.inl rfl⟩
+
+theorem InvW.next {s : St} (h : InvW s) {i : Nat} {w : Work} {cb : Nat} (f : Nat) (fs : List Nat)
+    (hi : s.workers[i]? = some (.running w cb)) : InvW (next s i w cb f fs) := by
+  have hlt : i < s.workers.length := (List.getElem?_eq_some_iff.mp hi).1
+  have h' : InvW { s with finished := s.finished ++ [cb] } := ⟨h.nonempty, h.noExit, h.waitOrd, h.tids, h.nlw⟩
+  refine ⟨fun hq => ?_, fun hq ws hws => ?_, waitOrd_setWorker h' _ _ _ _, h.tids, fun q' _ _ => ?_⟩
+  · simpa [Pool.next] using h.nonempty hq
+  · rcases mem_set_cases hws with rfl | hws
+    · simp
+    · exact h.noExit hq ws hws
+  · exact Or.inl ⟨_, List.mem_set hlt _, Or.inr (Or.inr ⟨_, _, rfl⟩)⟩
+
+theorem InvW.closed {s s' : St} (h : InvW s) (hq : s'.wq = none) (hw : s'.workers = s.workers)
+    (ho : s'.waitOrder = s.waitOrder) (hi : s'.inflight = s.inflight) : InvW s' :=
+  ⟨fun hq' => (by rw [hq] at hq'; cases hq'), fun hq' => (by rw [hq] at hq'; cases hq'),
+    (by rw [hw, ho]; exact h.waitOrd), (by rw [hi]; exact h.tids), fun q hq' => by rw [hq] at hq'; cases hq'⟩
+
+theorem InvW.broadcast {s : St} (h : InvW s) (hq : s.wq = none) : InvW (broadcast s) := by
+  refine ⟨fun hq' => ?_, fun hq' => ?_, fun j hj => ?_, h.tids, fun q hq' => ?_⟩
+  · simp [Pool.broadcast, hq] at hq'
+  · simp [Pool.broadcast, hq] at hq'
+  · rw [broadcast_eq] at hj
+    simp only [List.getElem?_map, Option.map_eq_some_iff] at hj
+    obtain ⟨x, _, hx⟩ := hj
+    cases x <;> simp [bcast] at hx
+  · simp [Pool.broadcast, hq] at hq'
+
+theorem InvW.step {s s' : St} {a : Act} (h : InvW s) (hs : step s a = some s')
+    (hn : ∀ n, a = .serve n → 1 ≤ n) : InvW s' := by
+  cases step_Step hs with
+  | serve n => exact h.serve (hn n rfl)
+  | checkFail => exact h
+  | checkPass _ _ _ _ ht => exact h.checkPass _ _ ht
+  | lockClosed _ _ _ _ _ hq => exact h.filter _ hq
+  | lockAppend _ _ _ _ q hf hq => exact h.subAppend hq hf
+  | lockNew _ _ _ _ q _ hq => exact h.subNew hq ..
+  | signalSome _ _ _ _ i _ hi =>
+    have hi' := List.find?_some hi
+    simp only [decide_eq_true_eq] at hi'
+    exact h.signalSome _ hi'
+  | signalNone _ _ _ _ _ hi => exact h.signalNone _ hi
+  | wStart _ hi | wWake _ hi | wSpurious _ hi => exact h.relook hi
+  | doneNext _ _ _ _ _ hi => exact h.next _ _ hi
+  | doneLast i w cb hi hp =>
+    have hlt : i < s.workers.length := (List.getElem?_eq_some_iff.mp hi).1
+    exact (h.finish hi).relook (old := .idle) (by simp [Pool.finish, hlt])
+  | shutdownCas => exact ⟨h.nonempty, h.noExit, h.waitOrd, h.tids, h.nlw⟩
+  | closeLock => exact h.closed rfl rfl rfl rfl
+  | closeBroadcast _ hq => exact h.broadcast hq
+  | shutdownDone _ hq => exact h.closed hq rfl rfl rfl
+
+theorem InvW.run {acts : List Act} {s s' : St} (h : InvW s) (hr : Pool.run s acts = some s')
+    (hn : ∀ n, Act.serve n ∈ acts → 1 ≤ n) : InvW s' := by
+  induction acts generalizing s with
+  | nil => simp [Pool.run] at hr; exact hr ▸ h
+  | cons a as ih =>
+    simp only [Pool.run] at hr
+    cases hs : Pool.step s a with
+    | none => simp [hs] at hr
+    | some m =>
+      rw [hs] at hr
+      exact ih (h.step hs fun n e => hn n (e ▸ List.mem_cons_self)) hr fun n hm => hn n (List.mem_cons_of_mem _ hm)
+
 end GoRes.Pool
